@@ -23,15 +23,29 @@ from lib import core  # noqa: E402
 
 
 def setup() -> int:
+    """Translate, then build every .v file (keep going on errors); succeed iff the property
+    file of every check registered in MANIFEST.json was built."""
     st = core.translate()
     bad = {k: v for k, v in st.items() if v != "ok"}
     if bad:
         print("translate: some items failed:", json.dumps(bad, indent=1))
-    ok, log = core.build(None)
-    if not ok:
-        print(log[-4000:])
+    with core.BuildLock():
+        core.ensure_makefile()
+        rc, log = core._sh(f"timeout 3000 make -k -j{core.NPROC} 2>&1", cwd=core.COQ, timeout=3100)
+    man = json.loads((core.ROOT / "MANIFEST.json").read_text())
+    missing = []
+    for c in man["checks"]:
+        vo = core.COQ / "props" / f"{c['property_id']}.vo"
+        if not vo.exists():
+            missing.append(str(vo))
+    if rc != 0:
+        print("note: some files did not build (not necessarily needed by a registered check):")
+        print("\n".join(l for l in log.splitlines() if "Error" in l or l.startswith("File "))[-3000:])
+    if missing:
+        print("setup FAILED: missing", missing)
+        print(log[-3000:])
         return 1
-    print("setup ok:", len(core.v_files()), "coq files built")
+    print("setup ok:", len(core.v_files()), "coq files,", len(man["checks"]), "registered checks built")
     return 0
 
 
